@@ -1,8 +1,400 @@
-//! C13 — placeholder, replaced by the real check.
-use crate::core::{CaseOut, Run};
-pub fn run(run: &Run) {
-	run.infra("C13 is not built yet");
+//! C13 — standard-library object and type functions match their documented definitions.
+//! Reference: the documented std.jsonnet definitions, written in Jsonnet over a handful of primitives and evaluated
+//! by the harness's own interpreter (model.rs); jrsonnet's native builtins are evaluated by jrsonnet.
+use serde_json::Value;
+
+use crate::{
+	ast::{self, bx, call, num, s, std_call, var, Bind, Ex, Param},
+	core::{CaseOut, Run, Src, Verdict},
+	jr::{self, Opts, Outcome},
+	model::{self, Interp, MOut},
+	props::{
+		c01::{compare, Cmp},
+		c02, c05,
+	},
+};
+
+/// documented definitions (jsonnet.org/ref/stdlib.html, std.jsonnet), over the primitives
+/// std.objectFields/objectFieldsAll/objectHas/objectHasAll/length/type and the core language
+pub const REF_LIB: &str = r#"
+{
+  local ref = self,
+  isObject(v):: std.type(v) == 'object',
+  isArray(v):: std.type(v) == 'array',
+  isString(v):: std.type(v) == 'string',
+  isNumber(v):: std.type(v) == 'number',
+  isBoolean(v):: std.type(v) == 'boolean',
+  isFunction(v):: std.type(v) == 'function',
+  type(v):: std.type(v),
+  length(v):: std.length(v),
+  objectFieldsEx(o, hidden):: if hidden then std.objectFieldsAll(o) else std.objectFields(o),
+  objectHasEx(o, f, hidden):: if hidden then std.objectHasAll(o, f) else std.objectHas(o, f),
+  objectFields(o):: std.objectFields(o),
+  objectFieldsAll(o):: std.objectFieldsAll(o),
+  objectHas(o, f):: std.objectHas(o, f),
+  objectHasAll(o, f):: std.objectHasAll(o, f),
+  objectValues(o):: [o[k] for k in std.objectFields(o)],
+  objectValuesAll(o):: [o[k] for k in std.objectFieldsAll(o)],
+  objectKeysValues(o):: [{ key: k, value: o[k] } for k in std.objectFields(o)],
+  objectKeysValuesAll(o):: [{ key: k, value: o[k] } for k in std.objectFieldsAll(o)],
+  get(o, f, default=null, inc_hidden=true):: if ref.objectHasEx(o, f, inc_hidden) then o[f] else default,
+  mapWithKey(func, obj)::
+    if !ref.isFunction(func) then error 'std.mapWithKey first param must be function'
+    else if !ref.isObject(obj) then error 'std.mapWithKey second param must be object'
+    else { [k]: func(k, obj[k]) for k in std.objectFields(obj) },
+  mergePatch(target, patch)::
+    if ref.isObject(patch) then
+      local target_object = if ref.isObject(target) then target else {};
+      local target_fields = std.objectFields(target_object);
+      local null_fields = [k for k in std.objectFields(patch) if patch[k] == null];
+      local both_fields = target_fields + [k for k in std.objectFields(patch) if !std.objectHas(target_object, k)];
+      {
+        [k]:
+          if !std.objectHas(patch, k) then target_object[k]
+          else if !std.objectHas(target_object, k) then ref.mergePatch(null, patch[k]) tailstrict
+          else ref.mergePatch(target_object[k], patch[k]) tailstrict
+        for k in both_fields
+        if !ref.contains(null_fields, k)
+      }
+    else patch,
+  contains(arr, x):: std.length([1 for e in arr if e == x]) > 0,
+  prune(a)::
+    local isContent(b) =
+      if b == null then false
+      else if ref.isArray(b) then std.length(b) > 0
+      else if ref.isObject(b) then std.length(b) > 0
+      else true;
+    if ref.isArray(a) then [ref.prune(x) for x in a if isContent(ref.prune(x))]
+    else if ref.isObject(a) then { [x]: ref.prune(a[x]) for x in std.objectFields(a) if isContent(ref.prune(a[x])) }
+    else a,
+  objectRemoveKey(obj, key):: std.objectRemoveKey(obj, key),
+  equals(a, b):: a == b,
+  primitiveEquals(a, b)::
+    if std.type(a) != std.type(b) then false
+    else if ref.isArray(a) || ref.isObject(a) || ref.isFunction(a) then error 'primitiveEquals operates on primitive types'
+    else a == b,
+  assertEqual(a, b):: if a == b then true else error 'Assertion failed. ' + a + ' != ' + b,
+  xor(x, y):: x != y,
+  xnor(x, y):: x == y,
 }
-pub fn replay(_run: &Run, _stage: &str, _tape: Option<&[u16]>, _v: &serde_json::Value) -> Option<CaseOut> {
-	None
+"#;
+
+thread_local! {
+	static REF_EX: Ex = ast::parse_to_ex(REF_LIB).expect("reference library parses");
+}
+
+#[derive(Clone)]
+pub struct Question {
+	pub func: &'static str,
+	pub args: Vec<Ex>,
+	pub named: Vec<(String, Ex)>,
+	/// observe only std.length(result) (must not force the elements) instead of the deep value
+	pub shallow: bool,
+	pub classes: Vec<String>,
+}
+impl Question {
+	fn jr_expr(&self) -> Ex {
+		let c = Ex::Call(bx(Ex::Dot(bx(var("std")), self.func.to_owned())), self.args.clone(), self.named.clone(), false);
+		if self.shallow {
+			std_call("length", vec![c])
+		} else {
+			c
+		}
+	}
+	fn model_expr(&self) -> Ex {
+		let c = Ex::Call(bx(Ex::Dot(bx(var("ref")), self.func.to_owned())), self.args.clone(), self.named.clone(), false);
+		let body = if self.shallow { std_call("length", vec![c]) } else { c };
+		REF_EX.with(|r| Ex::Local(vec![Bind::Var("ref".into(), r.clone())], bx(body)))
+	}
+	pub fn text(&self) -> String {
+		ast::print_eval(&self.jr_expr())
+	}
+}
+
+fn q(func: &'static str, args: Vec<Ex>) -> Question {
+	Question { func, args, named: vec![], shallow: false, classes: vec![format!("fn:{func}")] }
+}
+
+fn gen_object(src: &mut Src, classes: &mut Vec<String>) -> Ex {
+	if src.chance(3, 4) {
+		let chain = c02::gen_chain(src);
+		if chain.layers.len() >= 2 {
+			classes.push("arg:inherited-object".into());
+		}
+		if chain.layers.iter().any(|l| l.kinds.iter().any(|k| *k == c02::Kind::ErrorField)) {
+			classes.push("arg:object-with-failing-field".into());
+		}
+		if chain.layers.iter().any(|l| l.kinds.iter().any(|k| matches!(k, c02::Kind::Plain(ast::Vis::Hidden) | c02::Kind::Plus(ast::Vis::Hidden)))) {
+			classes.push("arg:object-with-hidden-field".into());
+		}
+		c02::chain_ex(&chain)
+	} else {
+		let mut cl = vec![];
+		let j = c05::gen_j(src, 2, 3, &mut cl);
+		match j {
+			crate::json::J::Obj(_) => c05::lazy_ex(&j, src),
+			other => Ex::Obj(vec![ast::Member::Field { name: ast::FieldName::Id("a".into()), plus: false, vis: ast::Vis::Normal, params: None, value: c05::lit_ex(&other) }]),
+		}
+	}
+}
+
+/// JSON-like tree with many nulls / empties (for mergePatch and prune)
+fn gen_patchy(src: &mut Src, depth: usize) -> Ex {
+	let leaf = depth == 0 || src.exhausted();
+	match src.weighted(&[3, 2, 2, 1, if leaf { 0 } else { 5 }, if leaf { 0 } else { 3 }]) {
+		0 => Ex::Null,
+		1 => num(src.range(0, 3) as f64),
+		2 => s(*src.pick(&["", "x", "y"])),
+		3 => {
+			if src.chance(1, 2) {
+				Ex::True
+			} else {
+				Ex::False
+			}
+		}
+		4 => {
+			let n = src.range(0, 3) as usize;
+			let keys = ["a", "b", "c", "d"];
+			let mut ms = vec![];
+			for _ in 0..n {
+				let k = *src.pick(&keys);
+				if ms.iter().any(|m| matches!(m, ast::Member::Field { name: ast::FieldName::Id(x), .. } if x == k)) {
+					continue;
+				}
+				let vis = if src.chance(1, 6) { ast::Vis::Hidden } else { ast::Vis::Normal };
+				ms.push(ast::Member::Field { name: ast::FieldName::Id(k.to_owned()), plus: false, vis, params: None, value: gen_patchy(src, depth - 1) });
+			}
+			Ex::Obj(ms)
+		}
+		_ => {
+			let n = src.range(0, 3);
+			Ex::Arr((0..n).map(|_| gen_patchy(src, depth - 1)).collect())
+		}
+	}
+}
+
+fn gen_any(src: &mut Src, classes: &mut Vec<String>) -> Ex {
+	match src.weighted(&[3, 2, 2, 1, 1, 2, 2, 2]) {
+		0 => num(*src.pick(&[0.0, 1.0, -1.5, 1e300])),
+		1 => s(*src.pick(&["", "a", "é😀", "abc"])),
+		2 => Ex::Arr((0..src.range(0, 3)).map(|_| num(1.0)).collect()),
+		3 => Ex::Null,
+		4 => {
+			if src.chance(1, 2) {
+				Ex::True
+			} else {
+				Ex::False
+			}
+		}
+		5 => gen_object(src, classes),
+		6 => {
+			let n = src.range(0, 3) as usize;
+			let names = ["p", "q", "r"];
+			classes.push("arg:function".into());
+			Ex::Func((0..n).map(|i| Param { name: names[i].into(), default: if src.chance(1, 2) { Some(num(0.0)) } else { None } }).collect(), bx(num(1.0)))
+		}
+		_ => gen_patchy(src, 2),
+	}
+}
+
+pub fn gen_question(src: &mut Src) -> Question {
+	let mut cl = vec![];
+	let key = |src: &mut Src| s(*src.pick(&["a", "b", "c", "zz", "n"]));
+	let bool_ex = |src: &mut Src| if src.chance(1, 2) { Ex::True } else { Ex::False };
+	let mut qu = match src.below(30) {
+		0 => q("objectFields", vec![gen_object(src, &mut cl)]),
+		1 => q("objectFieldsAll", vec![gen_object(src, &mut cl)]),
+		2 => q("objectValues", vec![gen_object(src, &mut cl)]),
+		3 => q("objectValuesAll", vec![gen_object(src, &mut cl)]),
+		4 => q("objectKeysValues", vec![gen_object(src, &mut cl)]),
+		5 => q("objectKeysValuesAll", vec![gen_object(src, &mut cl)]),
+		6 => q("objectHas", vec![gen_object(src, &mut cl), key(src)]),
+		7 => q("objectHasAll", vec![gen_object(src, &mut cl), key(src)]),
+		8 => q("objectHasEx", vec![gen_object(src, &mut cl), key(src), bool_ex(src)]),
+		9 => q("objectFieldsEx", vec![gen_object(src, &mut cl), bool_ex(src)]),
+		10 | 11 => {
+			let o = gen_object(src, &mut cl);
+			let k = key(src);
+			let mut qq = q("get", vec![o, k]);
+			match src.below(4) {
+				0 => {}
+				1 => qq.args.push(s("dflt")),
+				2 => {
+					// a failing default: only forced when used
+					qq.args.push(Ex::Error(bx(s("default was forced"))));
+					qq.classes.push("get:failing-default".into());
+				}
+				_ => {
+					qq.args.push(s("dflt"));
+					if src.chance(1, 2) {
+						qq.args.push(bool_ex(src));
+					} else {
+						qq.named.push(("inc_hidden".into(), bool_ex(src)));
+					}
+				}
+			}
+			qq
+		}
+		12 | 13 => {
+			let f = match src.below(4) {
+				0 => Ex::Func(vec![Param { name: "k".into(), default: None }, Param { name: "v".into(), default: None }], bx(var("k"))),
+				1 => Ex::Func(vec![Param { name: "k".into(), default: None }, Param { name: "v".into(), default: None }], bx(Ex::Arr(vec![var("k"), var("v")]))),
+				2 => Ex::Func(vec![Param { name: "k".into(), default: None }, Param { name: "v".into(), default: None }], bx(num(1.0))),
+				_ => Ex::Func(vec![Param { name: "k".into(), default: None }, Param { name: "v".into(), default: None }], bx(Ex::If(bx(Ex::Bin(ast::BinOp::Eq, bx(var("k")), bx(s("b")))), bx(Ex::Error(bx(s("partial")))), Some(bx(var("v")))))),
+			};
+			q("mapWithKey", vec![f, gen_object(src, &mut cl)])
+		}
+		14 | 15 | 16 => {
+			let t = if src.chance(1, 4) { gen_object(src, &mut cl) } else { gen_patchy(src, 3) };
+			let p = gen_patchy(src, 3);
+			cl.push("mergePatch:any".into());
+			q("mergePatch", vec![t, p])
+		}
+		17 | 18 => q("prune", vec![if src.chance(1, 5) { gen_object(src, &mut cl) } else { gen_patchy(src, 3) }]),
+		19 => q("objectRemoveKey", vec![gen_object(src, &mut cl), key(src)]),
+		20 => q("length", vec![gen_any(src, &mut cl)]),
+		21 => q("type", vec![gen_any(src, &mut cl)]),
+		22 => q(*src.pick(&["isString", "isNumber", "isBoolean", "isObject", "isArray", "isFunction"]), vec![gen_any(src, &mut cl)]),
+		23 | 24 => {
+			let a = gen_any(src, &mut cl);
+			let b = if src.chance(1, 2) { a.clone() } else { gen_any(src, &mut cl) };
+			q("equals", vec![a, b])
+		}
+		25 => {
+			let a = gen_any(src, &mut cl);
+			let b = if src.chance(1, 2) { a.clone() } else { gen_any(src, &mut cl) };
+			q("primitiveEquals", vec![a, b])
+		}
+		26 => {
+			let a = gen_patchy(src, 1);
+			let b = if src.chance(1, 2) { a.clone() } else { gen_patchy(src, 1) };
+			q("assertEqual", vec![a, b])
+		}
+		27 => q("xor", vec![bool_ex(src), bool_ex(src)]),
+		28 => q("xnor", vec![bool_ex(src), bool_ex(src)]),
+		// (xor / xnor are documented for booleans only: other argument types are not generated)
+		_ => q("xnor", vec![bool_ex(src), bool_ex(src)]),
+	};
+	// array/object results are also observed through std.length only: the definition does not force the elements
+	if matches!(qu.func, "objectValues" | "objectValuesAll" | "objectKeysValues" | "objectKeysValuesAll" | "mapWithKey" | "objectRemoveKey") && src.chance(1, 2) {
+		qu.shallow = true;
+		qu.classes.push("observe:length-only".into());
+	}
+	qu.classes.extend(cl);
+	qu
+}
+
+pub const K_MAPWITHKEY_STRICT: &str = "C13-mapwithkey-strict";
+
+pub fn decide(run: &Run, qs: &[Question]) -> Vec<CaseOut> {
+	let mut prog = String::from("[\n");
+	for qu in qs {
+		prog.push_str(&format!("  verif.tryj({}),\n", qu.text()));
+	}
+	prog.push_str("]\n");
+	let out = jr::eval(&prog, &Opts::default());
+	let got: Value = match &out {
+		Outcome::Val(t) => serde_json::from_str(t).unwrap_or(Value::Null),
+		o => {
+			return qs.iter().map(|qu| CaseOut::fail(qu.text(), format!("batch did not evaluate: {}", o.short()))).collect();
+		}
+	};
+	qs.iter()
+		.enumerate()
+		.map(|(i, qu)| {
+			let m = model::run_expr(&qu.model_expr(), &Interp::new(300_000));
+			let v = &got[i];
+			let j = if v[0] == Value::Bool(true) {
+				Outcome::Val(v[1].as_str().unwrap_or("").to_owned())
+			} else {
+				Outcome::Err(v[1].as_str().unwrap_or("").to_owned(), v[2].as_str().unwrap_or("").to_owned())
+			};
+			let text = qu.text();
+			let nontrivial = qu.classes.iter().any(|c| c.starts_with("arg:") || c.starts_with("mergePatch") || c.starts_with("get:"));
+			match compare(&m, &j) {
+				Cmp::Agree => CaseOut::pass(text, nontrivial).classes(qu.classes.clone()),
+				Cmp::Undecided(w) => CaseOut::discard(text, &w),
+				Cmp::Disagree(w) => {
+					// recorded finding: mapWithKey reads every field eagerly.  Signature: jrsonnet fails, the reference
+					// yields a value, and forcing all visible fields of the object argument fails in the reference as well.
+					if qu.func == "mapWithKey" && run.is_known(K_MAPWITHKEY_STRICT) && matches!(m, MOut::Val(_)) && j.is_err() {
+						let force_all = std_call("manifestJsonMinified", vec![std_call("objectValues", vec![qu.args[1].clone()])]);
+						// ... or applying the function to every field (forcing the whole result) fails in the reference
+						let mut deep = qu.clone();
+						deep.shallow = false;
+						let eager_fails = matches!(model::run_expr(&force_all, &Interp::new(300_000)), MOut::Err(_))
+							|| matches!(model::run_expr(&deep.model_expr(), &Interp::new(300_000)), MOut::Err(_));
+						if eager_fails {
+							return CaseOut { verdict: Verdict::Known(K_MAPWITHKEY_STRICT.to_owned()), text, nontrivial, classes: qu.classes.clone() };
+						}
+					}
+					CaseOut::fail(text, w).classes(qu.classes.clone())
+				}
+			}
+		})
+		.collect()
+}
+
+pub fn batch_case(run: &Run, src: &mut Src) -> CaseOut {
+	// one tape = one small batch of questions; the first failing question is the case's verdict
+	let n = 6;
+	let qs: Vec<Question> = (0..n).map(|_| gen_question(src)).collect();
+	let outs = decide(run, &qs);
+	// the returned case is the first failing question (or the first question); the others are recorded here
+	let mut ret: Option<CaseOut> = None;
+	let mut rest = vec![];
+	for o in outs {
+		let is_fail = matches!(o.verdict, Verdict::Fail(_));
+		let ret_is_fail = ret.as_ref().is_some_and(|r| matches!(r.verdict, Verdict::Fail(_)));
+		if ret.is_none() {
+			ret = Some(o);
+		} else if is_fail && !ret_is_fail {
+			rest.push(ret.replace(o).unwrap());
+		} else {
+			rest.push(o);
+		}
+	}
+	for o in &rest {
+		run.record("questions", o);
+	}
+	ret.unwrap()
+}
+
+pub fn run(run: &Run) {
+	run.set_rule("calls of std.objectFields/All, objectValues/All, objectKeysValues/All, objectHas/All/Ex, objectFieldsEx, get (default present/absent/failing, inc_hidden positional and named), mapWithKey (total and partial functions), mergePatch (trees with nulls at every level, non-object targets/patches, hidden fields, inherited targets), prune, objectRemoveKey, length, type, is*, equals, primitiveEquals, assertEqual, xor, xnor on inheritance chains from the C02 generator (hidden, unhidden, +:, removed keys, failing fields, failing assertions), lazily built JSON-like objects and other values incl. functions. Reference: the documented std.jsonnet definitions written in Jsonnet over primitives and evaluated by the harness's own interpreter; array/object results are also observed through std.length only (elements must stay unevaluated). Non-trivial = inherited/hidden/failing-field object argument, a mergePatch, or a std.get with a failing default; distinct by call text.");
+	run.assume("documented definitions transcribed in REF_LIB (props/c13.rs); std.objectRemoveKey follows the property's wording (mask over the layers beneath), evaluated by harness/src/model.rs");
+	run.reproduce_known(|k| {
+		let out = jr::eval(&k.replay, &Opts::default());
+		if out.is_err() {
+			CaseOut { verdict: Verdict::Known(k.id.clone()), text: k.replay.clone(), nontrivial: true, classes: vec![] }
+		} else {
+			CaseOut::pass(k.replay.clone(), true)
+		}
+	});
+	let n = run.tier.pick(5_000, 150_000);
+	run.explore("questions", n, 40..=400, |src| batch_case(run, src));
+	for f in [
+		"objectFields", "objectFieldsAll", "objectValues", "objectValuesAll", "objectKeysValues", "objectKeysValuesAll", "objectHas", "objectHasAll", "objectHasEx", "objectFieldsEx",
+		"get", "mapWithKey", "mergePatch", "prune", "objectRemoveKey", "length", "type", "equals", "primitiveEquals", "assertEqual", "xor", "xnor",
+	] {
+		run.require_class(&format!("fn:{f}"), 100);
+	}
+	run.require_class("arg:object-with-failing-field", 300);
+	run.require_class("observe:length-only", 300);
+}
+
+pub fn replay(run: &Run, stage: &str, tape: Option<&[u16]>, _v: &Value) -> Option<CaseOut> {
+	match (stage, tape) {
+		("questions", Some(t)) => {
+			let mut src = Src::new(t);
+			let qs: Vec<Question> = (0..6).map(|_| gen_question(&mut src)).collect();
+			decide(run, &qs).into_iter().find(|o| matches!(o.verdict, Verdict::Fail(_))).or_else(|| Some(CaseOut::pass("batch passes".into(), true)))
+		}
+		_ => None,
+	}
+}
+
+#[allow(dead_code)]
+fn unused() {
+	let _ = call;
 }
